@@ -706,9 +706,11 @@ void format_data(
       }
       for (; x < static_cast<size_t>(field_count - line_invalid_end_fields); x++) {
         LoadedDataT current_value = line_fields[x];
-        LoadedDataT previous_value = prev_line_fields[x];
 
-        RedBoldTerminalGuard g1(write_data, use_color && (previous_value != current_value));
+        // Compare the stored bytes, not the loaded values: NaN != NaN would
+        // highlight unchanged fields, and 0.0 == -0.0 would hide changed ones
+        bool changed = memcmp(&line_fields[x], &prev_line_fields[x], sizeof(StoredDataT)) != 0;
+        RedBoldTerminalGuard g1(write_data, use_color && changed);
         string field = string_printf(field_format, current_value);
         write_data(field.data(), field.size());
       }
